@@ -250,6 +250,110 @@ REPORTED_EXCEPTIONS = {
 }
 
 
+def _status_values(f, var):
+    """Forward propagation of the values a local status variable may hold: a set of integer constants, "nz" (unknown but
+    non-zero) and "?" (unknown).  Returns (IN, EDGE): the set at the head of each block and on each edge."""
+    from ..dataflow import Solver
+    V = var
+
+    def transfer(st, e):
+        if e.is_assign and norm(e.kid(0)) == V:
+            if e.op == "=":
+                r = norm(e.kid(1))
+                return frozenset([r[1]]) if r[0] == "c" and isinstance(r[1], int) else frozenset(["?"])
+            return frozenset(["?"])
+        if e.cls == "UnaryOperator" and e.op in ("&", "++", "--") and norm(e.kid(0)) == V:
+            return frozenset(["?"])
+        if e.cls == "DeclStmt" and e.decls:
+            for d in e.decls:
+                if isinstance(d, dict) and d.get("kind") == "local" and d.get("id") == V[2]:
+                    if d.get("init"):
+                        try:
+                            r = norm(f.elem(d["init"]))
+                        except (KeyError, IndexError, TypeError):
+                            return frozenset(["?"])
+                        return frozenset([r[1]]) if r[0] == "c" and isinstance(r[1], int) else frozenset(["?"])
+                    return frozenset(["?"])
+        return st
+
+    def refine(st, cond, kind):
+        if kind not in (True, False):
+            return st
+        for op, L, R, Le, Re in cond_atoms(cond, kind):
+            if L != V or R[0] != "c" or not isinstance(R[1], int):
+                continue
+            c = R[1]
+            out = set()
+            for v in st:
+                if isinstance(v, int):
+                    ok = {"==": v == c, "!=": v != c, "<": v < c, "<=": v <= c, ">": v > c, ">=": v >= c}[op]
+                    if ok:
+                        out.add(v)
+                elif op == "==":
+                    if not (v == "nz" and c == 0):
+                        out.add(c)
+                elif (op == "!=" and c == 0) or (op == "<" and c <= 0) or (op == ">" and c >= 0) or (op == "<=" and c < 0) or (op == ">=" and c > 0):
+                    out.add("nz")
+                else:
+                    out.add(v)
+            st = frozenset(out)
+            if not st:
+                return None
+        return st
+
+    s = Solver(f, frozenset(["?"]), transfer, refine).run()
+    return s
+
+
+def _status_returns_from(f, var, solver, b, si):
+    """Values of `var` at each `return (var)` reachable from edge (b, si), propagating the edge's set forward."""
+    from ..dataflow import edge_kinds
+    V = var
+    start = solver.OUT_EDGE.get((b, si))
+    if start is None:
+        return []
+    IN = {f.blocks[b].succs[si]: start}
+    work = [f.blocks[b].succs[si]]
+    found = []
+    rounds = 0
+    while work:
+        n = work.pop()
+        rounds += 1
+        if rounds > 4000:
+            return []
+        blk = f.blocks[n]
+        st = IN[n]
+        dead = False
+        for e in blk.elems:
+            if e.cls == "ReturnStmt":
+                if e.kids and norm(e.kid(0)) == V:
+                    found.append((e, st))
+                dead = True
+                break
+            st = solver.transfer(st, e)
+        if dead or blk.noreturn:
+            continue
+        kinds = edge_kinds(blk)
+        for k, s in enumerate(blk.succs):
+            if s is None:
+                continue
+            cond, kind = kinds[k]
+            s2 = st
+            if cond is not None:
+                s2 = solver.refine(st, cond, kind)
+                if s2 is None:
+                    continue
+            if s in IN:
+                j = IN[s] | s2
+                if j != IN[s]:
+                    IN[s] = j
+                    work.append(s)
+            else:
+                IN[s] = s2
+                work.append(s)
+    return found
+
+
 def reported_rule(prog, rep, only_files=None):
     """"Allocation failure is reported": from the NULL edge of every tested acquisition, every return that can be reached
     carries the function's failure value (non-zero for int functions, NULL for pointer functions) -- a cleanup ladder that
@@ -262,6 +366,8 @@ def reported_rule(prog, rep, only_files=None):
         rt = (f.unit.types.get(f.ret) or {}).get("kind")
         if rt not in ("int", "ptr"):
             continue
+        stat = {}
+        pids = set(p["id"] for p in f.params)
         for b in f.blocks.values():
             if b.cond is None or len(b.succs) != 2:
                 continue
@@ -279,6 +385,17 @@ def reported_rule(prog, rep, only_files=None):
                 n += 1
                 vals, seen = f.returns_from(succ)
                 wrong = [v for v in vals if v is not None and v[0] == "c" and ((v[1] == 0) if rt == "int" else (v[1] != 0))]
+                if rt == "int" and not wrong:
+                    # `return (rc)`: the status variable must not hold the success value on any path from the failure edge
+                    for v in vals:
+                        if v is not None and v[0] == "v" and len(v) > 2 and v[2] not in pids:
+                            sv = stat.get(v)
+                            if sv is None:
+                                sv = stat[v] = _status_values(f, v)
+                            for re_, st in _status_returns_from(f, v, sv, b.id, 0 if truth else 1):
+                                if 0 in st:
+                                    wrong.append(("v", "%s (== 0 here)" % v[1]))
+                                    break
                 inst = "%s in %s" % (hit.text[:50], f.name)
                 key = (f.unit.path if f.static else f.file, f.name, hit.callee)
                 if wrong and key in REPORTED_EXCEPTIONS:
